@@ -53,6 +53,8 @@ func TestMain(m *testing.M) {
 		evid.Spec{Name: "TestPropRandom", Kind: "rapid", Quick: 48000, Thorough: 2400000, QuickShards: 8, ThoroughShards: 16, TimeoutS: 3000},
 		evid.Spec{Name: "TestPropConcurrent", Kind: "rapid", Quick: 1600, Thorough: 48000, QuickShards: 4, ThoroughShards: 8, TimeoutS: 3000},
 		evid.Spec{Name: "TestPropRelated", Kind: "rapid", Quick: 32000, Thorough: 1600000, QuickShards: 8, ThoroughShards: 16, TimeoutS: 3000},
+		evid.Spec{Name: "TestGridKmerMap", Kind: "plain", QuickShards: 4, ThoroughShards: 8, TimeoutS: 3000},
+		evid.Spec{Name: "TestPropKmerMap", Kind: "rapid", Quick: 16000, Thorough: 240000, QuickShards: 4, ThoroughShards: 16, TimeoutS: 3000},
 	)
 	evid.Note("rule", "case = (width, operation group, operand A, operand B, amount N); one evaluation = all operations of one group on one case compared with math/big. "+
 		"Grid: limbs from {0,1,2,2^31-1,2^31+1,2^32-1,2^32+1,2^63-1,2^63,2^64-2,2^64-1}; every value (11) and ordered pair for 64 bits, every limb combination (121) and ordered pair for 128 bits, "+
@@ -63,7 +65,7 @@ func TestMain(m *testing.M) {
 		"div: dividend > 2^64 and 1 < divisor <= dividend; cmp: limbs of the two operands order in conflicting directions (64 bits: operands differ); bits: both operands neither 0 nor all-ones; "+
 		"cast: the value is not zero; kmer: k-mer longer than 32 nucleotides or sparse mask in use. Distinct = hash of (check, width, A, B, N). "+
 		"Concurrent callers (check \"concurrent\"): a case = 4..24 operand pairs (a third of them sharing the second operand: same divisor / factor again and again) x one group x 2/4/8 goroutines x 50/200 rounds; every goroutine evaluates the group on every pair, each result judged against math/big as above, after a single-caller pass on the same pairs; non-trivial = at least 2 goroutines and 4 pairs. "+
-		"Every group runs on its own goroutine under a 5 s watchdog (three consecutive expiries = non-termination; the test stops after the first such case).")
+		"Every group runs on its own goroutine under a 5 s watchdog (three consecutive expiries = non-termination; the test stops after the first such case)."+kmapRule)
 	evid.Main(m, "C20")
 }
 
